@@ -92,7 +92,7 @@ fn get_players<Client: QuakeClient>(bufferer: &mut Buffer<LittleEndian>) -> GDRe
     // one player per line, until the end of the packet (or its trailing null byte)
     while bufferer.remaining_length() != 0 && bufferer.remaining_bytes() != [0x00] {
         let data = bufferer.read_string::<Utf8Decoder>(Some([0x0A]))?;
-        let data_split = data.split(' ').collect::<Vec<&str>>();
+        let data_split = split_outside_quotes(&data);
         let data_iter = data_split.iter();
 
         players.push(Client::parse_player_string(data_iter)?);
@@ -133,6 +133,27 @@ pub fn client_query<Client: QuakeClient>(
             .or_else(|| server_vars.remove("*version")),
         unused_entries: server_vars,
     })
+}
+
+/// Split a player line on spaces, except those inside a quoted field (names can contain spaces).
+fn split_outside_quotes(line: &str) -> Vec<&str> {
+    let mut parts = Vec::new();
+    let mut start = 0;
+    let mut in_quotes = false;
+
+    for (index, character) in line.char_indices() {
+        match character {
+            '\"' => in_quotes = !in_quotes,
+            ' ' if !in_quotes => {
+                parts.push(&line[start .. index]);
+                start = index + 1;
+            }
+            _ => {}
+        }
+    }
+
+    parts.push(&line[start ..]);
+    parts
 }
 
 pub fn remove_wrapping_quotes<'a>(string: &&'a str) -> &'a str {
